@@ -900,6 +900,51 @@ fn run_gc_roots(ops: &[Op]) {
     }
 }
 
+// ---------------------------------------------------------------- cyclic_table (C04: recursion over self-referencing tables)
+// A script can store a table in itself (SetProperty), directly or through a chain of tables.  Comparing such a table,
+// hashing it (using it as a key) or converting it to an OwnedValue recurses through `Value::eq` / `Hash for Value` /
+// `OwnedValue::try_from` with nothing that decreases.  The real code overflows the native stack and the process
+// aborts, so the scenario runs in a child process (this executable re-invoked with CAO_REPLAY_CHILD set).
+// ops[0] = (kind, cycle length - 1, _): kind % 3 = 0 `t == t`, 1 `k[t] = 1`, 2 host reads the global `g = t`.
+fn cyclic_table_scenario(ops: &[Op]) {
+    let kind = ops[0].0 % 3;
+    let len = 1 + (ops[0].1 % 3) as usize;
+    let tbl = || -> Card { CardBody::CreateTable.into() };
+    let name = |i: usize| format!("t{}", i % len);
+    let mut cards: Vec<Card> = (0..len).map(|i| Card::set_var(name(i), tbl())).collect();
+    // t0[0] = t1; t1[0] = t2; ...; t(len-1)[0] = t0
+    for i in 0..len { cards.push(Card::set_property(Card::read_var(name(i + 1)), Card::read_var(name(i)), Card::scalar_int(0))); }
+    match kind {
+        0 => cards.push(Card::set_global_var("g", CardBody::Equals(cao_lang::compiler::BinaryExpression::new([Card::read_var("t0"), Card::read_var("t0")])))),
+        1 => { cards.push(Card::set_var("k", tbl())); cards.push(Card::set_property(Card::scalar_int(1), Card::read_var("k"), Card::read_var("t0"))); }
+        _ => cards.push(Card::set_global_var("g", Card::read_var("t0"))),
+    }
+    let module = Module { functions: vec![("main".to_string(), Function::default().with_cards(cards))], ..Default::default() };
+    let program = compile(module, None).unwrap();
+    let mut vm = Vm::new(()).unwrap().with_max_iter(10_000);
+    let r = vm.run(&program);
+    if kind == 2 {
+        if let Some(v) = vm.read_var_by_name("g", &program.variables) {
+            let o = cao_lang::value::OwnedValue::try_from(v);
+            println!("CHILD converted: {}", o.is_ok());
+        }
+    }
+    println!("CHILD finished: {:?}", r.map(|_| ()).map_err(|e| e.payload));
+}
+
+fn run_cyclic_table(ops: &[Op]) {
+    if std::env::var("CAO_REPLAY_CHILD").is_ok() { cyclic_table_scenario(ops); return; }
+    let exe = std::env::current_exe().unwrap();
+    let txt: Vec<String> = ops[..1].iter().map(|o| format!("{}:{}:{}", o.0, o.1, o.2)).collect();
+    let out = std::process::Command::new(exe).args(["cyclic_table", "replay", "0", &txt.join(",")]).env("CAO_REPLAY_CHILD", "1").output().unwrap();
+    if !out.status.success() {
+        let what = ["`t0 == t0`", "`k[t0] = 1` (hashing t0)", "the host converting the global `g = t0` with OwnedValue::try_from"][(ops[0].0 % 3) as usize];
+        let err = String::from_utf8_lossy(&out.stderr);
+        let line = err.lines().find(|l| l.contains("overflow") || l.contains("panicked")).unwrap_or("").to_string();
+        fail("cyclic_table", ops, 0, format!("a table that contains itself through a chain of {} table(s): {what} terminated the process abnormally ({}; {line}) instead of returning a result or an error", 1 + ops[0].1 % 3, out.status));
+    }
+}
+
 fn dispatch(unit: &str, ops: &[Op], variant: u64) {
     VARIANT.store(variant, std::sync::atomic::Ordering::Relaxed);
     match unit {
@@ -915,6 +960,7 @@ fn dispatch(unit: &str, ops: &[Op], variant: u64) {
         "decode_walk" => run_decode_walk(ops),
         "closure_capture" => run_closure_capture(ops),
         "gc_roots" => run_gc_roots(ops),
+        "cyclic_table" => run_cyclic_table(ops),
         _ => { eprintln!("unknown unit {unit}"); std::process::exit(2); }
     }
 }
@@ -934,6 +980,12 @@ fn main() {
     if unit == "label_collision" {
         search_label_collision();
         println!("OK no card label equals the label of an earlier function for functions < 48, card paths [i, j] with i, j < 1600");
+        return;
+    }
+    if unit == "cyclic_table" {
+        // nine shapes: each spawns a child process
+        for kind in 0..3u8 { for len in 0..3u64 { dispatch(unit, &[(kind, len, 0)], 0); } }
+        println!("OK comparing, hashing and converting tables that contain themselves (cycle length 1..3) returned normally");
         return;
     }
     let mut rng = Rng(seed.wrapping_mul(0x9E3779B97F4A7C15) | 1);
